@@ -179,3 +179,47 @@ def eager_consumptions(fnode, tainted, lazy_callbacks, for_loops=True):
             out.append((n.lineno, 'unpacking consumes an unlimited lazy '
                         'value'))
     return out
+
+
+# ------------------------------------------------ host-access sinks (C07) ----
+
+REFLECTIVE = {'getattr', 'setattr', 'delattr', 'eval', 'exec', 'vars',
+              '__import__', 'compile', 'globals', 'locals', 'open',
+              'hasattr', 'dir', 'type'}
+
+
+def host_access_sinks(fnode, object_params, str_params):
+    """Syntactic sinks through which an expression could reach members of a
+    host object: reflective builtins, format templates that are not
+    literals, attribute reads / method calls / subscripts / calls on a
+    parameter that may hold an arbitrary host object."""
+    out = []
+    body = ast.Module(body=list(fnode.body), type_ignores=[])
+    for n in ast.walk(body):
+        if isinstance(n, ast.Call):
+            fn = _fname(n)
+            if isinstance(n.func, ast.Name) and fn in REFLECTIVE:
+                out.append((n.lineno, 'reflective call %s(...)' % fn))
+            if isinstance(n.func, ast.Attribute) and fn in (
+                    'format', 'format_map') and not isinstance(
+                        n.func.value, ast.Constant):
+                out.append((n.lineno, 'non-literal format template'))
+            if isinstance(n.func, ast.Name) and n.func.id in object_params:
+                out.append((n.lineno, 'call of host object %s(...)'
+                            % n.func.id))
+        elif isinstance(n, ast.BinOp) and isinstance(n.op, ast.Mod):
+            l = n.left
+            if isinstance(l, ast.Name) and (l.id in str_params
+                                            or l.id in object_params):
+                out.append((n.lineno, '%% formatting with template '
+                            'parameter %s' % l.id))
+        elif isinstance(n, ast.Attribute) and isinstance(
+                n.value, ast.Name) and n.value.id in object_params:
+            out.append((n.lineno, 'member access %s.%s on a host object'
+                        % (n.value.id, n.attr)))
+        elif isinstance(n, ast.Subscript) and isinstance(
+                n.value, ast.Name) and n.value.id in object_params \
+                and isinstance(n.ctx, ast.Load):
+            out.append((n.lineno, 'subscript %s[...] on a host object'
+                        % n.value.id))
+    return out
